@@ -1,3 +1,5 @@
+#![recursion_limit = "4096"]
+#![allow(unused_parens)]
 //! C15: print fingerprints of the registry built from a fixed corpus in a fixed order.
 /// the hand-written TypeInfo impls of the harness library, compiled into this crate directly
 #[allow(dead_code)]
@@ -76,6 +78,10 @@ fn fingerprint(name: &str, metas: Vec<(&'static str, MetaType)>) {
     println!("{} types={} entries={} type_doc_lines={} bytes={}", name, metas.len(), p.types.len(), docs_strings, hex(&p.encode()));
     strip_docs(&mut p);
     println!("{}_nodocs bytes={}", name, hex(&p.encode()));
+    // the registry a consumer keeps after pruning is produced metadata too
+    let mut kept = p.clone();
+    let map = kept.retain(|id| id % 3 == 0);
+    println!("{}_retained_nodocs kept={} bytes={}", name, map.len(), hex(&kept.encode()));
 }
 
 fn main() {
